@@ -5,7 +5,7 @@
 From PyGql Require Import Spec.ExecSpec Exec.ExecCache Proofs.ExecTopProofs.
 From PyGql Require Import Proofs.DepthTermination Proofs.ExecTermination.
 From PyGql Require Import Proofs.ExecCollectFull Proofs.ExecSpecFull Proofs.ExecTerminates.
-From PyGql Require Import Proofs.ExecSpecDet Proofs.ExecCollectReach Proofs.ExecCoerceC07.
+From PyGql Require Import Proofs.ExecSpecDet Proofs.ExecCollectReach Proofs.ExecCoerceC07 Proofs.ExecSpecComplete.
 From PyGql Require Exec.CoerceModel Spec.CoerceSpec.
 
 (* Response keys: the keys of every response object are the keys of the
@@ -298,6 +298,39 @@ Theorem C04_exec_is_the_spec_result :
                      d = fst r /\ errs_sim (snd r) es').
 Proof. exact exec_is_the_spec_result. Qed.
 Print Assumptions C04_exec_is_the_spec_result.
+
+(* Completeness, for the grouping the code computes (G of
+   Proofs/ExecSpecProofs.v: the code's collect_fields, which is the spec's
+   CollectFields wherever top_spreads holds): whenever the declarative
+   relation has a result without a failed sub-selection collect, exec_sel
+   returns exactly that result from some amount of object-level fuel on; with
+   soundness, the Ok results of the model are exactly the relation's results. *)
+Theorem C04_exec_complete :
+  forall sch frags vs coerce_args world tyres cfuel tn v p sels d es,
+    SSel sch coerce_args world tyres (G sch frags vs cfuel) tn v p sels d es -> no_abort es ->
+    exists F, forall fuel, F <= fuel ->
+      exec_sel sch frags vs coerce_args world tyres cfuel fuel tn v p sels = Ok (d, es).
+Proof. exact exec_sel_complete. Qed.
+Print Assumptions C04_exec_complete.
+
+Theorem C04_exec_characterised :
+  forall sch frags vs coerce_args world tyres cfuel tn v p sels d es,
+    no_abort es ->
+    (SSel sch coerce_args world tyres (G sch frags vs cfuel) tn v p sels d es <->
+     exists fuel, exec_sel sch frags vs coerce_args world tyres cfuel fuel tn v p sels = Ok (d, es)).
+Proof. exact exec_sel_characterised. Qed.
+Print Assumptions C04_exec_characterised.
+
+(* Query and mutation root fields are executed by the same function, in
+   grouping order (blocking executor). *)
+Theorem C04_serial_is_parallel :
+  forall sch coerce_args world tyres cfuel fuel d opname vs root k sels rt,
+    get_operation d opname = Ok (k, sels) -> k <> OpSubscription ->
+    match k with OpQuery => s_query sch | OpMutation => s_mutation sch | OpSubscription => s_subscription sch end = Some rt ->
+    execute sch coerce_args world tyres cfuel fuel d opname vs root =
+    exec_sel sch (frag_table_of (doc_defs d)) vs (coerce_args vs) world tyres cfuel fuel rt root [] sels.
+Proof. exact execute_serial_is_parallel. Qed.
+Print Assumptions C04_serial_is_parallel.
 
 (* ---- fragment cycles *)
 
